@@ -177,7 +177,7 @@ class OperationGroup(ContextMixin, ContentMixin):
             'fee': lambda i, x: str(
                 default_fee(
                     x,
-                    gas_limit if gas_limit is not None else int(x['gas_limit']),
+                    int(x['gas_limit']),
                     minimal_nanotez_per_gas_unit,
                 )
             ),
